@@ -157,8 +157,6 @@ package quickfix
 //@ iface Application.OnLogon(recv, sessionID)
 //@   modifies recv.#logons
 //@   ensures recv.#logons == old(recv.#logons) + 1
-//@ iface Application.OnLogout(recv, sessionID)
-//@   pure
 //@ iface Application.OnCreate(recv, sessionID)
 //@   pure
 
@@ -384,7 +382,7 @@ package quickfix
 //@ spec stnotlogged(st sessionState) bool = st is logonState || st is logoutState || st is latentState || st is notSessionTime
 //@ spec stoff(st sessionState) bool = st is latentState || st is notSessionTime
 // a state value is well-formed: a pending-timeout wrapper holds one of the two logged-on states, never another wrapper
-//@ spec stok(st sessionState) bool = st != nil && (st is pendingTimeout ==> stlogged(unbox(st, pendingTimeout).sessionState))
+//@ spec stok(st sessionState) bool = st != nil && (st is pendingTimeout ==> stlogged(unbox(st, pendingTimeout).sessionState)) && (stlogged(st) || stnotlogged(st) || st is pendingTimeout)
 
 //@ iface sessionState.IsLoggedOn(recv) [C08]
 //@   requires stok(recv)
@@ -851,3 +849,51 @@ package quickfix
 //@   requires sessfull(session)
 //@   atcall sendQueued @loggedon !stnotlogged(session.State)
 //@   ensures sessfull(session)
+
+// ---- leaving a connected state (C08): one logout notification, the connection closed once and forgotten ---------
+//@ ghost Application.logouts int
+//@ iface Application.OnLogout(recv, sessionID)
+//@   modifies recv.#logouts
+//@   ensures recv.#logouts == old(recv.#logouts) + 1
+
+// draining the inbound channel re-enters the whole machine (Incoming): stated, unverified contract
+//@ func (s *session) drainMessageIn [C08]
+//@   trusted
+//@   requires s != nil
+//@   ensures s.messageOut == old(s.messageOut) && s.application == old(s.application) && s.application.#logouts == old(s.application.#logouts) && s.store == old(s.store) && s.log == old(s.log) && s.messageEvent == old(s.messageEvent) && !closed(s.messageEvent) && (s.notifyOnInSessionTime != nil ==> !closed(s.notifyOnInSessionTime))
+
+//@ func (s *session) onDisconnect [C07,C08]
+//@   requires @sess sessfull(s)
+//@   ensures @closed s.messageOut == nil
+//@   ensures @nologout s.application == old(s.application) && s.application.#logouts == old(s.application.#logouts)
+//@   requires @chanpre s.notifyOnInSessionTime != nil ==> !closed(s.notifyOnInSessionTime)
+//@   ensures @chan s.notifyOnInSessionTime != nil ==> !closed(s.notifyOnInSessionTime)
+
+//@ spec stnotifies(s *session) bool = stlogged(s.State) || s.State is pendingTimeout || s.State is logoutState || (s.State is logonState && s.InitiateLogon)
+//@ func (sm *stateMachine) handleDisconnectState [C08]
+//@   requires @sess sessfull(s)
+//@   ensures @once s.application.#logouts == old(s.application.#logouts) + (old(stnotifies(s)) ? 1 : 0)
+//@   ensures @closed s.messageOut == nil
+//@   requires @chanpre s.notifyOnInSessionTime != nil ==> !closed(s.notifyOnInSessionTime)
+//@   ensures @chan s.notifyOnInSessionTime != nil ==> !closed(s.notifyOnInSessionTime)
+
+//@ spec stconnected(st sessionState) bool = stlogged(st) || st is pendingTimeout || st is logonState || st is logoutState
+// setState: leaving a connected state for a disconnected one notifies the application exactly when a logon was
+// notified or pending (stnotifies), closes and forgets the connection; otherwise nothing is notified
+//@ func (sm *stateMachine) setState [C08]
+//@   requires @sess sessfull(session) && sm == &session.stateMachine
+//@   requires @next stok(nextState)
+//@   requires @chan session.notifyOnInSessionTime != nil ==> !closed(session.notifyOnInSessionTime)
+//@   ensures @state sm.State == nextState
+//@   ensures @logout session.application.#logouts == old(session.application.#logouts) + (!stconnected(nextState) && old(stconnected(session.State)) && old(stnotifies(session)) ? 1 : 0)
+//@   ensures @gone !stconnected(nextState) && old(stconnected(session.State)) ==> session.messageOut == nil
+//@   ensures @kept stconnected(nextState) ==> session.messageOut == old(session.messageOut)
+
+// Disconnected (the connection was lost): a connected state ends with the logout notification due and the connection
+// forgotten; a disconnected state is left alone
+//@ func (sm *stateMachine) Disconnected [C08]
+//@   requires @sess sessfull(session) && sm == &session.stateMachine
+//@   requires @chan session.notifyOnInSessionTime != nil ==> !closed(session.notifyOnInSessionTime)
+//@   ensures @logout session.application.#logouts == old(session.application.#logouts) + (old(stconnected(session.State)) && old(stnotifies(session)) ? 1 : 0)
+//@   ensures @gone old(stconnected(session.State)) ==> session.messageOut == nil && sm.State is latentState
+//@   ensures @idle !old(stconnected(session.State)) ==> sm.State == old(sm.State)
